@@ -45,6 +45,11 @@ struct K8s {
     hold_continue: bool,
     holding: bool,
     release: Arc<tokio::sync::Notify>,
+    /// LIST responses are slow: their content is fixed when the request arrives, they are sent when `release_lists`
+    /// is notified
+    hold_lists: bool,
+    held_lists: u64,
+    release_lists: Arc<tokio::sync::Notify>,
 }
 
 impl K8s {
@@ -218,6 +223,18 @@ async fn serve(state: Arc<Mutex<K8s>>) -> SocketAddr {
                             ("200 OK", json!({"apiVersion": "agones.dev/v1", "kind": "GameServerList", "metadata": meta, "items": page.iter().map(|n| st.objects[n].clone()).collect::<Vec<_>>()}).to_string())
                         }
                     };
+                    let slow = {
+                        let mut st = state.lock().unwrap();
+                        if st.hold_lists {
+                            st.held_lists += 1;
+                            Some(st.release_lists.clone())
+                        } else {
+                            None
+                        }
+                    };
+                    if let Some(release) = slow {
+                        release.notified().await;
+                    }
                     let resp = format!("HTTP/1.1 {status}\r\ncontent-type: application/json\r\ncontent-length: {}\r\n\r\n{body}", body.len());
                     if sock.write_all(resp.as_bytes()).await.is_err() {
                         return;
@@ -329,6 +346,10 @@ pub enum Ev {
     DeleteThenWatchError { name: String },
     /// ADDED/MODIFIED and the ERROR event become readable for the client in the same write
     ApplyThenWatchError { name: String, shape: String },
+    /// the watch fails on the server side (ERROR 500); from then on LIST responses are slow (content fixed on
+    /// arrival, delivered later). Once a new watch is open the object changes (`shape`, or "deleted"); the offer is
+    /// compared after the change and again after the slow responses have been delivered.
+    WatchErrorSlowLists { name: String, shape: String },
 }
 
 #[derive(Clone, Debug, Serialize, Deserialize, PartialEq)]
@@ -505,6 +526,10 @@ fn run_history(spec: &Spec, counters: &(AtomicU64, AtomicU64)) -> Vec<(String, S
                         st.apply(name, game_server(name, shape));
                         st.watch_error();
                     }
+                    Ev::WatchErrorSlowLists { .. } => {
+                        st.hold_lists = true;
+                        st.watch_error();
+                    }
                 }
             }
             if matches!(ev, Ev::GoneRelistHeld) {
@@ -530,15 +555,20 @@ fn run_history(spec: &Spec, counters: &(AtomicU64, AtomicU64)) -> Vec<(String, S
                     break;
                 }
             }
-            if matches!(ev, Ev::CloseWatch | Ev::Gone | Ev::GoneAndDelete { .. } | Ev::GoneAndApply { .. } | Ev::GoneRelistInterrupted { .. } | Ev::GoneRelistHeld | Ev::WatchError | Ev::DeleteThenWatchError { .. } | Ev::ApplyThenWatchError { .. }) {
+            if matches!(ev, Ev::CloseWatch | Ev::Gone | Ev::GoneAndDelete { .. } | Ev::GoneAndApply { .. } | Ev::GoneRelistInterrupted { .. } | Ev::GoneRelistHeld | Ev::WatchError | Ev::DeleteThenWatchError { .. } | Ev::ApplyThenWatchError { .. } | Ev::WatchErrorSlowLists { .. }) {
                 // wait until the adapter has opened a new watch before the marker is toggled
                 let before = state.lock().unwrap().watches;
                 let t0 = Instant::now();
                 loop {
                     {
-                        let st = state.lock().unwrap();
+                        let mut st = state.lock().unwrap();
                         if st.watches > before && !st.watchers.is_empty() {
                             break;
+                        }
+                        if st.hold_lists && st.held_lists > 0 && t0.elapsed() > Duration::from_secs(3) {
+                            // the watcher itself waits for a LIST before it watches again: do not keep it waiting
+                            st.hold_lists = false;
+                            st.release_lists.notify_waiters();
                         }
                     }
                     if t0.elapsed() > Duration::from_secs(8) {
@@ -547,6 +577,10 @@ fn run_history(spec: &Spec, counters: &(AtomicU64, AtomicU64)) -> Vec<(String, S
                     }
                     tokio::time::sleep(Duration::from_millis(5)).await;
                 }
+            }
+            if let Ev::WatchErrorSlowLists { name, shape } = ev {
+                let mut st = state.lock().unwrap();
+                if shape == "deleted" { st.delete(name) } else { st.apply(name, game_server(name, shape)) }
             }
             let want = barrier(&state);
             let Some(snap) = wait_for(&adapter, |s| s.iter().any(|t| t.identifier == MARKER) == want, Duration::from_secs(20)).await else {
@@ -557,6 +591,24 @@ fn run_history(spec: &Spec, counters: &(AtomicU64, AtomicU64)) -> Vec<(String, S
             let truth = state.lock().unwrap().objects.clone();
             let n0 = v.len();
             check(&snap, &truth, i + 1, &label, &mut v);
+            if v.len() == n0 && matches!(ev, Ev::WatchErrorSlowLists { .. }) {
+                // now the slow LIST responses (if anybody asked) arrive, with the content of before the change
+                let held = {
+                    let mut st = state.lock().unwrap();
+                    st.hold_lists = false;
+                    st.release_lists.notify_waiters();
+                    st.held_lists
+                };
+                tokio::time::sleep(Duration::from_millis(if held > 0 { 250 } else { 20 })).await;
+                let want = barrier(&state);
+                let Some(snap) = wait_for(&adapter, |s| s.iter().any(|t| t.identifier == MARKER) == want, Duration::from_secs(20)).await else {
+                    v.push(("watch-not-applied".into(), format!("after step {} ({label}) the marker never became visible once the slow LIST responses had arrived", i + 1)));
+                    return v;
+                };
+                counters.0.fetch_add(1, Ordering::Relaxed);
+                let truth = state.lock().unwrap().objects.clone();
+                check(&snap, &truth, i + 1, &format!("{label}, after {held} slow LIST response(s) arrived"), &mut v);
+            }
             if v.len() > n0 {
                 // the first discrepancy of a history is reported; later ones would only repeat it
                 break;
@@ -708,6 +760,9 @@ pub fn run(cli: Cli) -> ! {
             Ev::ApplyThenWatchError { name: "a".into(), shape: "shutdown".into() },
             Ev::ApplyThenWatchError { name: "a".into(), shape: "ready-moved".into() },
             Ev::ApplyThenWatchError { name: "c".into(), shape: "ready".into() },
+            Ev::WatchErrorSlowLists { name: "a".into(), shape: "shutdown".into() },
+            Ev::WatchErrorSlowLists { name: "a".into(), shape: "deleted".into() },
+            Ev::WatchErrorSlowLists { name: "b".into(), shape: "allocated".into() },
         ];
         for f in &firsts {
             specs.push(Spec { initial: two.clone(), history: vec![f.clone()], paged: false });
